@@ -75,6 +75,11 @@ def exists(e):
     return {"x": "exists", "e": e}
 
 
+def imp(ok=True):
+    """import: expression -- a dotted name that can be imported (the value is string.digits) or cannot"""
+    return {"x": "imp", "ok": ok, "v": S("dg")}
+
+
 def strx(*ps):
     return {"x": "str", "ps": list(ps)}
 
